@@ -138,7 +138,8 @@ def _safe_check(clause: Clause, case) -> Outcome:
 
 
 def run_random_shard(clause: Clause, n_examples: int, seed_value: int, known_open: set,
-                     tier: str, flush: Callable[[str, Any, str], None]) -> Stats:
+                     tier: str, flush: Callable[[str, Any, str], None],
+                     claimed: Callable[[str], bool] = lambda sig: False) -> Stats:
     import hypothesis
     from hypothesis import HealthCheck, Phase, given, settings
 
@@ -166,7 +167,14 @@ def run_random_shard(clause: Clause, n_examples: int, seed_value: int, known_ope
                 if s in known_open:
                     stats.excluded_known[s] += 1
             if target['sig'] is None:
-                new = sorted(s for s in sigs if s not in excluded)
+                new = []
+                for s_ in sorted(s for s in sigs if s not in excluded):
+                    if claimed(s_):
+                        # another shard of this run is already shrinking this root cause
+                        excluded.add(s_)
+                        stats.classes['signature-claimed-by-another-shard'] += 1
+                    else:
+                        new.append(s_)
                 if new:
                     target['sig'] = new[0]
                     target['t0'] = time.monotonic()
@@ -243,12 +251,19 @@ def _worker(args):
         def flush(sig, case, msg):
             _write_replay(prop_id, clause_name, sig, case, msg, partial=True)
 
+        def claimed(sig):
+            try:
+                with open(_replay_path(prop_id, sig)) as f:
+                    return json.load(f).get('run') == os.environ.get('VERIF_RUN_TOKEN')
+            except Exception:
+                return False
+
         if clause.kind == 'exhaustive':
             st = run_exhaustive_shard(clause, shard, nshards, set(known_open), tier, flush)
         else:
             st = run_random_shard(clause, n_examples,
                                   derive_seed(seed_value, prop_id, clause_name, shard),
-                                  set(known_open), tier, flush)
+                                  set(known_open), tier, flush, claimed)
         return ('ok', clause_name, st.to_payload())
     except BaseException as e:  # noqa: BLE001 - report everything to the parent as harness error
         return ('error', clause_name, ''.join(traceback.format_exception(type(e), e, e.__traceback__)))
@@ -423,6 +438,20 @@ def run_property(prop_id: str, tier: str, seed_value: int) -> int:
         for sig, rec in sorted(m['found'].items()):
             p = _write_replay(prop_id, cname, sig, rec['case'], rec['msg'])
             violations.append((sig, p, rec['msg']))
+    # replays flushed by a shard of this run whose payload did not carry them (defensive)
+    rdir = os.path.join(env.VERIF_DIR, 'replays')
+    if os.path.isdir(rdir):
+        have = {v[1] for v in violations}
+        for fn in sorted(os.listdir(rdir)):
+            fp = os.path.join(rdir, fn)
+            if fn.startswith(prop_id + '-') and fn.endswith('.json') and fp not in have:
+                try:
+                    with open(fp) as f:
+                        rec = json.load(f)
+                    if rec.get('run') == os.environ['VERIF_RUN_TOKEN'] and rec.get('signature') not in known_open:
+                        violations.append((rec['signature'], fp, rec.get('message', '')))
+                except Exception:
+                    pass
 
     # 4. evidence
     evaluations = n_reg + sum(m['evaluations'] for m in merged.values())
